@@ -3,13 +3,14 @@
 # current /repo and re-run the checks recorded in its meta.json (the ones that
 # were run when it was first evaluated). One line per seed; details land in
 # seeded/<name>/meta.json. VERIF_WORK keeps the scratch output away from .work.
-cd /verif
-export VERIF_WORK=${VERIF_WORK:-/verif/.work2}
+root=$(cd "$(dirname "$0")/.." && pwd)   # works from a worktree of /verif too
+cd "$root"
+export VERIF_WORK=${VERIF_WORK:-$root/.work2}
 for d in seeded/*/; do
   name=$(basename "$d")
   [ -n "$1" ] && [[ "$name" != $1 ]] && continue
   checks=$(python3 -c "import json,sys; m=json.load(open('$d/meta.json')); print(' '.join(m.get('checks',{}).keys()) or m.get('property',''))")
   race=""; [[ "$checks" == *C05* ]] && race=1
-  DEMO_RACE=$race python3 tools/evalseed.py "/verif/seeded/$name" "$name" $checks 2>&1 | head -1
+  DEMO_RACE=$race python3 tools/evalseed.py "$root/seeded/$name" "$name" $checks 2>&1 | head -1
 done
 python3 tools/seedmeta.py >/dev/null
